@@ -21,6 +21,9 @@ type c11case struct {
 	CloseAt int // -1: write everything then close; >=0: close after this many bytes (abrupt)
 	Explore bool
 	Pause   bool // the sender pauses (virtual time passes) between segments
+	// Shared: the second connection uses the same observation domain (its own template id) and sends its
+	// last message only after the collector has closed the first connection
+	Shared bool
 }
 
 type c11stream struct {
@@ -84,6 +87,10 @@ func c11Cases(tier string) []c11case {
 					}
 				}
 			}
+		}
+		// a bystander in the same observation domain that goes on sending after this stream was cut off
+		if si == 0 || si >= 4 {
+			cs = append(cs, c11case{Stream: si, SegRead: true, CloseAt: -1, Shared: true}, c11case{Stream: si, SegRead: true, CloseAt: -1, Shared: true, Explore: true})
 		}
 		// peer closes after every prefix (abrupt close mid-message)
 		if si <= 1 {
@@ -149,6 +156,10 @@ func c11Scenario(c c11case) *vsched.Scenario {
 	a := colClient{domain: 1, segments: segs, messages: msgs, closeAtEnd: true, pause: c.Pause}
 	other := colStream(2, 1)
 	b := colClient{domain: 2, segments: other, messages: other, closeAtEnd: true}
+	if c.Shared {
+		other = colStreamT(1, 400, 2)
+		b = colClient{domain: 1, tmplID: 400, segments: other, messages: other, closeAtEnd: true, hasWait: true, waitClosed: 0}
+	}
 	return colScenario("c11", []colClient{a, b}, colOpts{proto: "tcp", segmentReads: c.SegRead})
 }
 
@@ -262,7 +273,7 @@ func runC11(tier, replay string) int {
 			infra = true
 			continue
 		}
-		rep.Report("c11", f.Problem.Kind, fmt.Sprintf("stream %s cuts=%v segmentReads=%v closeAt=%d: %s", streams[f.Case.Stream].name, f.Case.Cuts, f.Case.SegRead, f.Case.CloseAt, f.Problem.Detail),
+		rep.Report("c11", f.Problem.Kind, fmt.Sprintf("stream %s cuts=%v segmentReads=%v closeAt=%d sharedDomain=%v: %s", streams[f.Case.Stream].name, f.Case.Cuts, f.Case.SegRead, f.Case.CloseAt, f.Case.Shared, f.Problem.Detail),
 			map[string]interface{}{"case": f.Case, "choices": f.Choices}, nil)
 	}
 	fmt.Printf("C11 %s: cases=%d executions=%d points=%d steps=%d distinct outcomes=%d violations=%d\n", tier, tot.Cases, tot.Execs, tot.Points, tot.Steps, len(tot.Outcomes), rep.Violations())
@@ -276,7 +287,7 @@ func runC11(tier, replay string) int {
 	ev.Coverage = common.Coverage{
 		"states": tot.Cases, "transitions": tot.Steps, "traces_validated_against_impl": tot.Execs, "samples": samples,
 		"evaluations": tot.Execs, "distinct_nontrivial": tot.Cases,
-		"rule":       "19 byte streams (four valid ones incl. a padded data set and a two-record template set; five kinds of undecodable message at each of three positions) x {no cut, every single cut (for the valid streams also with the sender pausing a second of virtual time at the cut), every pair of cuts (quick: for the valid stream and one position per bad kind; thorough: all)} x {reads return one segment, reads coalesce}, plus a peer close after every prefix, thorough: every triple on the two-message stream and all 2^19 segmentations of the first 20 bytes; each case is one execution of the real collector (Start() on the in-memory network, a second connection with a valid stream alongside) under the controlled scheduler's default schedule, and a subset is additionally explored with one scheduling delay; oracle: deliveries = the decodable prefix of the stream, decoded correctly, connection closed by the collector after the first undecodable message, the other connection complete. distinct_nontrivial = distinct (stream, segmentation, read mode) cases",
+		"rule":       "19 byte streams (four valid ones incl. a padded data set and a two-record template set; five kinds of undecodable message at each of three positions) x {no cut, every single cut (for the valid streams also with the sender pausing a second of virtual time at the cut), every pair of cuts (quick: for the valid stream and one position per bad kind; thorough: all)} x {reads return one segment, reads coalesce}, plus a peer close after every prefix, thorough: every triple on the two-message stream and all 2^19 segmentations of the first 20 bytes; each case is one execution of the real collector (Start() on the in-memory network, a second connection with a valid stream alongside - in another observation domain, and for every stream with an undecodable message also in the same domain with its own template id, sending on after the first connection was closed) under the controlled scheduler's default schedule, and a subset is additionally explored with one scheduling delay; oracle: deliveries = the decodable prefix of the stream, decoded correctly, connection closed by the collector after the first undecodable message, the other connection complete. distinct_nontrivial = distinct (stream, segmentation, read mode) cases",
 		"exhaustive": true, "cases": tot.Cases, "distinct_observation_logs": len(tot.Outcomes),
 	}
 	ev.Assumptions = []string{"framing follows each message's own (correct) length field; after the first undecodable message nothing more is expected", "segment boundaries are exactly what a Read returns in segment mode; coalescing mode returns everything available"}
